@@ -174,6 +174,9 @@ package ledger
 //@ func (*ledger.SetMetadataLogPayload).UnmarshalJSON
 //@   requires s != nil
 //@   ensures err == nil && lib("strings.ToUpper", s.TargetType) == lib("strings.ToUpper", "TRANSACTION") ==> typeis(s.TargetID, "*big.Int") && as(s.TargetID, "*big.Int") != nil
+// pass-through: the metadata and the target type of the decoded entry are what encoding/json decoded, untouched (nil stays nil:
+// the hash of the entry was computed over "metadata":null, and an entry normalised to {} no longer re-verifies)
+//@   ensures err == nil ==> s.Metadata == local(x).Metadata && s.TargetType == local(x).TargetType
 //@   property C13
 
 // package-level constant in all but name
